@@ -31,8 +31,10 @@ type op struct {
 	// Source, for kind "new" in single-goroutine plans: bytes served by a source
 	// installed through the hook for this call only. Empty = default source.
 	Source hexb `json:"source,omitempty"`
-	Yield  int  `json:"yield,omitempty"` // runtime.Gosched calls before the op
-	Spin   int  `json:"spin,omitempty"`  // busy iterations before the op
+	// SourceErr: the error kind (see eventErr) the source reports once Source is used up; "" = io.EOF
+	SourceErr string `json:"source_err,omitempty"`
+	Yield     int    `json:"yield,omitempty"` // runtime.Gosched calls before the op
+	Spin      int    `json:"spin,omitempty"`  // busy iterations before the op
 	// Repeat > 1: the call is made that many times in a row; every result must equal the first
 	// (not compared for default-source NewMnemonic, whose output is random).
 	Repeat int `json:"repeat,omitempty"`
@@ -149,6 +151,20 @@ func (t *teeReader) Read(p []byte) (int, error) {
 	return n, err
 }
 
+// endingReader reports err instead of io.EOF once r is used up.
+type endingReader struct {
+	r   io.Reader
+	err error
+}
+
+func (e *endingReader) Read(p []byte) (int, error) {
+	n, err := e.r.Read(p)
+	if err == io.EOF {
+		err = e.err
+	}
+	return n, err
+}
+
 // execOp runs one op against the implementation; watch collects caller-owned
 // buffers to re-check at the end of the history.
 func execOp(o *op, watch *[]liveBuf, name string) obs {
@@ -214,7 +230,11 @@ func execOnce(o *op, watch *[]liveBuf, name string) obs {
 		case "new":
 			var prev io.Reader
 			if len(o.Source) > 0 {
-				prev = bip39.VerifSwapRandSource(bytes.NewReader(o.Source))
+				var src io.Reader = bytes.NewReader(o.Source)
+				if o.SourceErr != "" {
+					src = &endingReader{r: src, err: eventErr(o.SourceErr)}
+				}
+				prev = bip39.VerifSwapRandSource(src)
 			}
 			s, err := bip39.NewMnemonic(int(o.N), lang)
 			if len(o.Source) > 0 {
